@@ -157,6 +157,13 @@ func GenCaseOpt(r *core.Rng, id int, getter bool) *conv.Case {
 			defs = append(defs, tw)
 		}
 	}
+	if id%12 == 11 {
+		// a program that must be REJECTED (flatten next to an explicit __typename): alone, so
+		// that a generator that accepts it is judged on it
+		if fd := gen.FlattenTypenameDefs(s, "FT", id%24 == 11); fd != nil {
+			defs = fd
+		}
+	}
 	cfg.ClientGetter = ""
 	if getter && id%2 == 0 {
 		cfg.ClientGetter = "example.com/cg.GetClient"
